@@ -27,11 +27,11 @@ Record state_matches (st : estate) (ip : iparams) (fek : bytes) : Prop := {
   sm_stmf : (ip_V ip <? 4)%Z = false -> es_stmf st = ip_StmF ip /\ defined ip (ip_StmF ip);
   sm_strf : (ip_V ip <? 4)%Z = false -> es_strf st = ip_StrF ip /\ defined ip (ip_StrF ip);
   (* Identity is predefined and "shall not" be redefined in CF *)
-  sm_identity : cf_lookup (ip_CF ip) iN_Identity = None;
+  sm_identity : (ip_V ip <? 4)%Z = false -> cf_lookup (ip_CF ip) iN_Identity = None;
   (* EFF: the crypt filter of the embedded file streams *)
   sm_eff : (ip_V ip <? 4)%Z = false -> es_eff st = ip_EFF ip /\ (forall e, ip_EFF ip = Some e -> defined ip e);
-  (* the key sizes of the methods in use *)
-  sm_ok : forall n, method_ok (resolve ip n) fek;
+  (* the key sizes of the methods in use (crypt filters are used for V 4 and 5 only) *)
+  sm_ok : (ip_V ip <? 4)%Z = false -> forall n, method_ok (resolve ip n) fek;
 }.
 
 Lemma bytes_eqb_sym a b : bytes_eqb a b = bytes_eqb b a.
@@ -57,7 +57,7 @@ Lemma override_agree st ip fek n : state_matches st ip fek -> (ip_V ip <? 4)%Z =
 Proof.
   intros SM HV. unfold resolve. rewrite (sm_cf _ _ _ SM HV n).
   destruct (bytes_eqb n iN_Identity) eqn:E.
-  - apply bytes_eqb_eq in E. subst n. rewrite (sm_identity _ _ _ SM). reflexivity.
+  - apply bytes_eqb_eq in E. subst n. rewrite (sm_identity _ _ _ SM HV). reflexivity.
   - destruct (cf_lookup (ip_CF ip) n); reflexivity.
 Qed.
 
@@ -162,9 +162,9 @@ Proof.
   - exact (sm_key_len _ _ _ SM).
   - exact (sm_em _ _ _ SM).
   - exact (string_filter_agree st ip fek SM).
-  - unfold string_method. destruct (ip_V ip <? 4)%Z; [exact Logic.I|apply (sm_ok _ _ _ SM)].
+  - unfold string_method. destruct (ip_V ip <? 4)%Z eqn:HV; [exact Logic.I|apply (sm_ok _ _ _ SM HV)].
   - intros sd c Hok. exact (stream_cf_agree st ip fek sd c SM Hok).
   - intro sd. unfold stream_method.
-    destruct (ip_V ip <? 4)%Z; [exact Logic.I|]. destruct (crypt_filter_name sd); [apply (sm_ok _ _ _ SM)|].
-    destruct (ip_EFF ip); [destruct (dict_type_is sd iN_EmbeddedFile)|]; apply (sm_ok _ _ _ SM).
+    destruct (ip_V ip <? 4)%Z eqn:HV; [exact Logic.I|]. destruct (crypt_filter_name sd); [apply (sm_ok _ _ _ SM HV)|].
+    destruct (ip_EFF ip); [destruct (dict_type_is sd iN_EmbeddedFile)|]; apply (sm_ok _ _ _ SM HV).
 Qed.
